@@ -462,8 +462,9 @@ Definition where_pid (id : N) (pos : N * N) (w : list (N * (N * N) * N)) : optio
   | Some (_, _, q) => Some q
   | None => None
   end.
+(* only positions with coordinates below 65536 (the domain of the property) are looked up *)
 Definition where_pos (id pid : N) (w : list (N * (N * N) * N)) : option (N * N) :=
-  match find (fun e => let '(i, p, q) := e in (i =? id) && (q =? pid)) w with
+  match find (fun e => let '(i, p, q) := e in (i =? id) && (q =? pid) && in_range p) w with
   | Some (_, p, _) => Some p
   | None => None
   end.
